@@ -1,16 +1,16 @@
 import DryocVerif.Proofs.ProtectedInv
 /-
-Every harness token preserves `Inv`; it preserves `Tight` unless it is a `lock`
+Every harness token preserves `InvK`; it preserves `Tight` unless it is a `lock`
 of a non-empty `NoAccess` region.
 -/
 namespace DryocVerif.Proofs.Protected
 open DryocVerif DryocVerif.Model.Protected
 
-/-- `Inv` is re-established and `Tight` is kept -/
+/-- `InvK` is re-established and `Tight` is kept -/
 def Pres (c : Cfg) (s : State) (r : Res × State) : Prop :=
-  Inv c r.2 ∧ (Tight c s → Tight c r.2)
+  InvK c r.2 ∧ (Tight c s → Tight c r.2)
 
-theorem pres_same {c : Cfg} {s : State} (h : Inv c s) (x : Res) : Pres c s (x, s) := ⟨h, id⟩
+theorem pres_same {c : Cfg} {s : State} (h : InvK c s) (x : Res) : Pres c s (x, s) := ⟨h, id⟩
 
 theorem stLocked_prot (lm : LM) (pm pm' : PM) : stLocked (.prot lm pm) = stLocked (.prot lm pm') := by
   cases lm <;> rfl
@@ -18,14 +18,14 @@ theorem stLocked_prot (lm : LM) (pm pm' : PM) : stLocked (.prot lm pm) = stLocke
 theorem fillV_buf_length (v : PVec) (b : UInt8) : (fillV v b).buf.length = v.buf.length := by
   simp [fillV]; omega
 
-theorem pres_opFill {c : Cfg} (hP : 0 < c.P) {s : State} (h : Inv c s) (i : Nat) (b : UInt8) :
+theorem pres_opFill {c : Cfg} (hP : 0 < c.P) {s : State} (h : InvK c s) (i : Nat) (b : UInt8) :
     Pres c s (opFill s i b) := by
   unfold opFill
   apply withLive_elim _ _ _ _ (pres_same h _) (pres_same h _)
   intro sl l1 l2 hs hi hg
   have g := good_head hs hg h
   have fill : Pres c s (Res.ok, setSlot s s.m i
-      { sl with o := ⟨sl.o.st, fillV sl.o.v b⟩, rnd := false }) := by
+      { sl with o := { sl.o with v := fillV sl.o.v b }, rnd := false }) := by
     refine ⟨inv_set_live hs hi hg ?_, fun t => tight_set_live hs hi hg ?_⟩
     · exact good_setbuf hP g rfl rfl rfl (fillV_buf_length _ _)
     · exact tight_setvec (tight_head hs hg t) rfl rfl
@@ -34,27 +34,27 @@ theorem pres_opFill {c : Cfg} (hP : 0 < c.P) {s : State} (h : Inv c s) (i : Nat)
   · exact fill
   · exact pres_same h _
 
-theorem pres_doLock {c : Cfg} (hP : 0 < c.P) {s : State} (h : Inv c s) {i : Nat} {sl : Slot}
+theorem pres_doLock {c : Cfg} (hP : 0 < c.P) {s : State} (h : InvK c s) {i : Nat} {sl : Slot}
     {l1 l2 : List Slot} (hs : s.slots = l1 ++ sl :: l2) (hi : l1.length = i) (hg : sl.gone = false)
-    (pm : PM) (hst : blkOf sl.o = ⟨sl.o.v, pm.perm, false⟩)
+    (rc : LM × PM) (pm : PM) (hst : blkOf sl.o = ⟨sl.o.v, pm.perm, false⟩)
     (hna : c.undo = true ∨ pm.perm ≠ .none ∨ sl.o.v.len = 0) :
-    Pres c s (doLock c s i sl pm) := by
+    Pres c s (doLock c s i sl rc pm) := by
   have g := good_head hs hg h
   rw [hst] at g
-  have gl := good_lockV hP g pm
+  have gl := good_lockV hP g rc
   unfold doLock
-  by_cases hr : (lockV c s.m sl.o.v pm).2 = true
+  by_cases hr : (lockV c s.m sl.o.v rc).2 = true
   · simp only [hr, if_true]
     refine ⟨inv_set_live hs hi hg (gl.1 hr), fun t => tight_set_live hs hi hg ?_⟩
     have t' := tight_head hs hg t
     rw [hst] at t'
-    exact (tight_lockV hP t' g pm hna).1 hr
+    exact (tight_lockV hP t' g rc hna).1 hr
   · simp only [hr]
-    have hr' : (lockV c s.m sl.o.v pm).2 = false := by simpa using hr
+    have hr' : (lockV c s.m sl.o.v rc).2 = false := by simpa using hr
     refine ⟨inv_set_gone hs hi rfl (gl.2 hr'), fun t => tight_set_gone hs hi rfl ?_⟩
     have t' := tight_head hs hg t
     rw [hst] at t'
-    exact (tight_lockV hP t' g pm hna).2 hr'
+    exact (tight_lockV hP t' g rc hna).2 hr'
 
 /-- the one operation that could leave a stray locked page before the repair of `dryoc_mlock`
 (`c.undo = false`): `lock` on a non-empty `NoAccess` region -/
@@ -65,37 +65,37 @@ def LocksNoAccess (s : State) (t : Tok) : Prop :=
 theorem getElem?_split (l1 l2 : List Slot) (sl : Slot) : (l1 ++ sl :: l2)[l1.length]? = some sl := by
   simp
 
-/-- `Inv` part of `lock` (unconditional) -/
-theorem inv_opLock {c : Cfg} (hP : 0 < c.P) {s : State} (h : Inv c s) (i : Nat) :
-    Inv c (opLock c s i).2 := by
+/-- `InvK` part of `lock` (unconditional) -/
+theorem inv_opLock {c : Cfg} (hP : 0 < c.P) {s : State} (h : InvK c s) (i : Nat) :
+    InvK c (opLock c s i).2 := by
   unfold opLock
-  apply withLive_elim (Q := fun r => Inv c r.2) _ _ _ _ h h
+  apply withLive_elim (Q := fun r => InvK c r.2) _ _ _ _ h h
   intro sl l1 l2 hs hi hg
   have g := good_head hs hg h
-  have key : ∀ pm, blkOf sl.o = ⟨sl.o.v, pm.perm, false⟩ → Inv c (doLock c s i sl pm).2 := by
-    intro pm hst
+  have key : ∀ rc pm, blkOf sl.o = ⟨sl.o.v, pm.perm, false⟩ → InvK c (doLock c s i sl rc pm).2 := by
+    intro rc pm hst
     rw [hst] at g
-    have gl := good_lockV hP g pm
+    have gl := good_lockV hP g rc
     unfold doLock
-    by_cases hr : (lockV c s.m sl.o.v pm).2 = true
+    by_cases hr : (lockV c s.m sl.o.v rc).2 = true
     · simp only [hr, if_true]; exact inv_set_live hs hi hg (gl.1 hr)
     · simp only [hr]; exact inv_set_gone hs hi rfl (gl.2 (by simpa using hr))
   split
-  · rename_i hst; exact key .rw (by simp [blkOf, hst, stPerm, stLocked, PM.perm])
-  · rename_i pm hst; exact key pm (by simp [blkOf, hst, stPerm, stLocked])
+  · rename_i hst; exact key _ .rw (by simp [blkOf, hst, stPerm, stLocked, PM.perm])
+  · rename_i pm hst; exact key _ pm (by simp [blkOf, hst, stPerm, stLocked])
   · exact h
 
-theorem pres_opLock {c : Cfg} (hP : 0 < c.P) {s : State} (h : Inv c s) (i : Nat)
+theorem pres_opLock {c : Cfg} (hP : 0 < c.P) {s : State} (h : InvK c s) (i : Nat)
     (hno : c.undo = true ∨ ¬ LocksNoAccess s ⟨.lock, i⟩) : Pres c s (opLock c s i) := by
   unfold opLock
   apply withLive_elim _ _ _ _ (pres_same h _) (pres_same h _)
   intro sl l1 l2 hs hi hg
   split
   · rename_i hst
-    exact pres_doLock hP h hs hi hg .rw (by simp [blkOf, hst, stPerm, stLocked, PM.perm])
+    exact pres_doLock hP h hs hi hg _ .rw (by simp [blkOf, hst, stPerm, stLocked, PM.perm])
       (Or.inr (Or.inl (by simp [PM.perm])))
   · rename_i pm hst
-    refine pres_doLock hP h hs hi hg pm (by simp [blkOf, hst, stPerm, stLocked]) ?_
+    refine pres_doLock hP h hs hi hg _ pm (by simp [blkOf, hst, stPerm, stLocked]) ?_
     rcases hno with hu | hno
     · exact Or.inl hu
     by_cases h0 : sl.o.v.len = 0
@@ -108,7 +108,7 @@ theorem pres_opLock {c : Cfg} (hP : 0 < c.P) {s : State} (h : Inv c s) (i : Nat)
       simp only [hs, ← hi]; exact getElem?_split _ _ _
   · exact pres_same h _
 
-theorem pres_opUnlock {c : Cfg} (hP : 0 < c.P) {s : State} (h : Inv c s) (i : Nat) :
+theorem pres_opUnlock {c : Cfg} (hP : 0 < c.P) {s : State} (h : InvK c s) (i : Nat) :
     Pres c s (opUnlock c s i) := by
   unfold opUnlock
   apply withLive_elim _ _ _ _ (pres_same h _) (pres_same h _)
@@ -122,7 +122,7 @@ theorem pres_opUnlock {c : Cfg} (hP : 0 < c.P) {s : State} (h : Inv c s) (i : Na
       simpa [blkOf, hst, stPerm, stLocked] using this
     · exact tight_munlock hP (tight_head hs hg t) (g.ok _ (List.mem_cons_self)).lenle _ _
 
-theorem pres_opProtect {c : Cfg} (hP : 0 < c.P) {s : State} (h : Inv c s) (i : Nat) (pm : PM) :
+theorem pres_opProtect {c : Cfg} (hP : 0 < c.P) {s : State} (h : InvK c s) (i : Nat) (pm : PM) :
     Pres c s (opProtect c s i pm) := by
   unfold opProtect
   apply withLive_elim _ _ _ _ (pres_same h _) (pres_same h _)
@@ -136,7 +136,7 @@ theorem pres_opProtect {c : Cfg} (hP : 0 < c.P) {s : State} (h : Inv c s) (i : N
       simpa [blkOf, hst, stPerm, stLocked_prot lm pm pm0] using this
     · exact tight_mprotect hP (tight_head hs hg t) (g.ok _ (List.mem_cons_self)).lenle _ _ _
 
-theorem pres_opNa {c : Cfg} (hP : 0 < c.P) {s : State} (h : Inv c s) (i : Nat) :
+theorem pres_opNa {c : Cfg} (hP : 0 < c.P) {s : State} (h : InvK c s) (i : Nat) :
     Pres c s (opNa c s i) := by
   unfold opNa
   apply withLive_elim _ _ _ _ (pres_same h _) (pres_same h _)
@@ -151,7 +151,8 @@ theorem pres_opNa {c : Cfg} (hP : 0 < c.P) {s : State} (h : Inv c s) (i : Nat) :
   · exact pres_same h _
 
 theorem tight_objDrop {c : Cfg} (hP : 0 < c.P) {m : Mach} {o : Obj} {R : List Blk}
-    (t : TightL c.P m.k (blkOf o :: R)) (g : GoodL c.P m.k (blkOf o :: R)) :
+    (t : TightL c.P m.k (blkOf o :: R)) (g : GoodL c.P m.k (blkOf o :: R))
+    (hrc : ∀ lm pm, o.st = .prot lm pm → o.rcd = (lm, pm)) :
     TightL c.P (objDrop c m o).k R := by
   unfold objDrop
   split
@@ -161,9 +162,13 @@ theorem tight_objDrop {c : Cfg} (hP : 0 < c.P) {m : Mach} {o : Obj} {R : List Bl
   · rename_i lm pm hst
     simp only [blkOf, hst] at t g
     refine tight_protDrop hP t g _ _ ?_
+    rw [hrc lm pm hst]
     cases lm <;> simp [stLocked]
 
-theorem pres_opDrop {c : Cfg} (hP : 0 < c.P) {s : State} (h : Inv c s) (i : Nat) :
+theorem mem_split {l1 l2 : List Slot} {sl : Slot} {slots : List Slot} (hs : slots = l1 ++ sl :: l2) :
+    sl ∈ slots := by rw [hs]; simp
+
+theorem pres_opDrop {c : Cfg} (hP : 0 < c.P) {s : State} (h : InvK c s) (hrec : RecOK s) (i : Nat) :
     Pres c s (opDrop c s i) := by
   unfold opDrop
   apply withLive_elim _ _ _ _ (pres_same h _) (pres_same h _)
@@ -171,47 +176,49 @@ theorem pres_opDrop {c : Cfg} (hP : 0 < c.P) {s : State} (h : Inv c s) (i : Nat)
   have g := good_head hs hg h
   refine ⟨inv_set_gone hs hi rfl ?_, fun t => tight_set_gone hs hi rfl ?_⟩
   · exact good_objDrop hP (o := sl.o) g
-  · exact tight_objDrop hP (tight_head hs hg t) g
+  · exact tight_objDrop hP (tight_head hs hg t) g (hrec sl (mem_split hs) hg)
 
-theorem pres_opResize {c : Cfg} (hP : 0 < c.P) {s : State} (h : Inv c s) (i n : Nat) :
-    Pres c s (opResize c s i n) := by
+theorem pres_opResize {c : Cfg} (hP : 0 < c.P) {s : State} (h : InvK c s) (hrec : RecOK s) (i n : Nat)
+    (b : UInt8 := 0) : Pres c s (opResize c s i n b) := by
   unfold opResize
   apply withLive_elim _ _ _ _ (pres_same h _) (pres_same h _)
   intro sl l1 l2 hs hi hg
   have g := good_head hs hg h
   split
   · exact pres_same h _
-  have plain : ∀ st, blkOf sl.o = ⟨sl.o.v, .rw, false⟩ → blkOf ⟨st, (vecResize c s.m sl.o.v n).2⟩ =
-      ⟨(vecResize c s.m sl.o.v n).2, .rw, false⟩ →
-      Pres c s (Res.ok, setSlot s (vecResize c s.m sl.o.v n).1 i
-        { sl with o := ⟨st, (vecResize c s.m sl.o.v n).2⟩, rnd := sl.rnd && decide (0 < n) }) := by
-    intro st hb hb'
+  have plain : blkOf sl.o = ⟨sl.o.v, .rw, false⟩ →
+      Pres c s (Res.ok, setSlot s (vecResize c s.m sl.o.v n b).1 i
+        { sl with o := { sl.o with v := (vecResize c s.m sl.o.v n b).2 }, rnd := sl.rnd && decide (0 < n) }) := by
+    intro hb
+    have hb' : blkOf { sl.o with v := (vecResize c s.m sl.o.v n b).2 } =
+        ⟨(vecResize c s.m sl.o.v n b).2, .rw, false⟩ := by
+      simp only [blkOf] at hb ⊢
+      injection hb with _ h2 h3
+      rw [h2, h3]
     rw [hb] at g
     refine ⟨inv_set_live hs hi hg ?_, fun t => tight_set_live hs hi hg ?_⟩
-    · simp only [hb']; exact good_vecResize hP g n
+    · simp only [hb']; exact good_vecResize hP g n b
     · have t' := tight_head hs hg t
       rw [hb] at t'
-      simp only [hb']; exact tight_vecResize t' g hP n
+      simp only [hb']; exact tight_vecResize t' g hP n b
   split
   · rename_i hst
-    rw [hst]
-    exact plain _ (by simp [blkOf, hst, stPerm, stLocked]) (by simp [blkOf, stPerm, stLocked])
+    exact plain (by simp [blkOf, hst, stPerm, stLocked])
   · rename_i hst
-    rw [hst]
-    exact plain _ (by simp [blkOf, hst, stPerm, stLocked, PM.perm])
-      (by simp [blkOf, stPerm, stLocked, PM.perm])
+    exact plain (by simp [blkOf, hst, stPerm, stLocked, PM.perm])
   · rename_i hst
     have hb : blkOf sl.o = ⟨sl.o.v, .rw, true⟩ := by simp [blkOf, hst, stPerm, stLocked, PM.perm]
+    have hrc : sl.o.rcd.1 = .locked := by rw [hrec sl (mem_split hs) hg _ _ hst]
     rw [hb] at g
-    have gl := good_lockedResize hP g n
+    have gl := good_lockedResize hP g sl.o.rcd n b
     have tl := fun t : Tight c s => tight_lockedResize hP (by
-      have t' := tight_head hs hg t; rwa [hb] at t') g n
-    cases hn : (lockedResize c s.m sl.o.v n).2 with
+      have t' := tight_head hs hg t; rwa [hb] at t') g sl.o.rcd (fun _ => hrc) n b
+    cases hn : (lockedResize c s.m sl.o.v sl.o.rcd n b).2 with
     | none =>
       simp only [hn] at gl tl ⊢
       rw [← hb] at gl tl
       refine ⟨?_, fun t => ?_⟩
-      · unfold Inv; simp only [hs]
+      · unfold InvK; simp only [hs]
         exact gl.perm (blks_mid_live hg l1 l2).symm
       · unfold Tight; simp only [hs]
         exact (tl t).perm (blks_mid_live hg l1 l2).symm
